@@ -343,3 +343,27 @@ def abstraction_corpus():
     out.append((prog([("if", [(("atom", v("d"), ">", c(25)), [inc("x", 1), inc("y", 1)])], [inc("y", 3)])]),
                 [{"x": 1, "y": 1}, {"y": 2}], "abstraction:else", sup))
     return out
+
+
+def types_corpus():
+    """shapes for the type inference: values that arrive late through a chain (iteration budget /
+    fail-and-lock logic), draws with zero-probability outcomes, negative uniform bounds"""
+    c, v, F = P.const, P.var, Fraction
+    out = []
+    chain = ["v0", "v1", "v2", "v3", "v4"]
+    init = [("assign", x, P.det(c(0))) for x in chain] + [("assign", "cnt", P.det(c(0)))]
+    body = [("assign", chain[i], P.det(v(chain[i - 1]))) for i in range(len(chain) - 1, 0, -1)]
+    body.append(("assign", "v0", ("choice", [(c(F(1, 2)), c(0)), (c(F(1, 2)), c(2))])))
+    out.append(({"types": [], "init": init, "guard": ("true",), "body": body}, [], "shift-register"))
+    body2 = list(body) + [("if", [(("atom", v("v4"), "==", c(2)), [("assign", "cnt", P.det(("add", v("cnt"), c(1))))])], None)]
+    out.append(({"types": [], "init": init, "guard": ("true",), "body": body2}, [], "shift-register+condition"))
+    out.append(({"types": [], "init": [("assign", "k", P.det(c(0))), ("assign", "d", P.det(c(0))), ("assign", "cnt", P.det(c(0)))], "guard": ("true",),
+                 "body": [("assign", "k", ("draw", ("cat", [c(0), c(F(1, 4)), c(F(1, 4)), c(F(1, 2))]))),
+                          ("assign", "d", P.det(("sub", ("mul", c(2), v("k")), c(3)))),
+                          ("if", [(("atom", v("k"), "==", c(3)), [("assign", "cnt", P.det(("add", v("cnt"), c(1))))])], None)]},
+                [], "categorical-zero-probability"))
+    out.append(({"types": [], "init": [("assign", "u", P.det(c(0))), ("assign", "w", P.det(c(1)))], "guard": ("atom", v("w"), ">", c(-3)),
+                 "body": [("assign", "u", ("draw", ("unif", -2, 1))), ("assign", "w", P.det(("mul", v("u"), v("u")))),
+                          ("if", [(("atom", v("u"), "<", c(0)), [("assign", "w", P.det(("sub", c(0), v("w"))))])], None)]},
+                [], "negative-uniform"))
+    return out
